@@ -169,6 +169,16 @@ def install_loop_rule(it):
             return None
 
         def run():
+            try:
+                return run_()
+            except (KeyError, AttributeError) as e:
+                # the sidecar invariant names a local / field that the current source no longer has: the proof needs
+                # maintenance (undecided), it is neither a violation nor a checker crash
+                import traceback
+                tb = traceback.extract_tb(e.__traceback__)[-1]
+                raise Unsupported(f'loop invariant {key} is out of date with the source: {type(e).__name__} {e} at {tb.filename.split("/")[-1]}:{tb.lineno}')
+
+        def run_():
             import ast as _ast
             ctx = it.ctx
             is_for = isinstance(st, _ast.For)
